@@ -32,6 +32,8 @@ type hsScript struct {
 	Extras   []string `json:"extras"`
 	Stall    int      `json:"stall"`
 	Redial   bool     `json:"redial"`
+	Local    string   `json:"local"`  // "ll4" | "ll6": the transport's only local address is link-local
+	During   bool     `json:"during"` // the answer to the at-th CER arrives while the next transmission is still being written
 	Cfg      string   `json:"cfg"`    // "acct" | "auth" | "vsa": the client also advertises an application of that type its dictionary lacks
 	Shared   bool     `json:"shared"` // another connection of the same client is up and its peer repeats its CEA during this dial
 }
@@ -160,6 +162,8 @@ func ceaFor(kind string, cer *wireMsg) []byte {
 	case "noapps":
 	case "unsupapps":
 		m.NewAVP(avp.AuthApplicationID, avp.Mbit, 0, datatype.Unsigned32(12345))
+	case "relayok": // a relay agent: the only application it announces is the relay id
+		m.NewAVP(avp.AuthApplicationID, avp.Mbit, 0, datatype.Unsigned32(0xffffffff))
 	case "vsaunsup", "vsaok": // the only application information is a vendor-specific group, Vendor-Id first
 		app := uint32(16777999) // no dictionary defines it
 		if kind == "vsaok" {
@@ -289,14 +293,40 @@ func runHandshake(id int, sc *hsScript, configured bool) hsLine {
 	defer logsByConn.Delete(reflect.ValueOf(mc).Pointer())
 	l.Conform = true
 	peerKind := func(kind string) string {
-		if kind == "ok" || kind == "vsaok" {
+		if kind == "ok" || kind == "vsaok" || kind == "relayok" {
 			return "ok"
 		}
 		return "fail"
 	}
+	switch sc.Local {
+	case "ll4":
+		mc.SetLocal("169.254.10.1:3868")
+		if !configured {
+			l.Want.HostIPs = [][]int{addrInts(net.ParseIP("169.254.10.1"))}
+		}
+	case "ll6":
+		mc.SetLocal("[fe80::1234%eth0]:3868")
+		if !configured {
+			l.Want.HostIPs = [][]int{addrInts(net.ParseIP("fe80::1234"))}
+		}
+	}
 	if sc.Stall > 0 {
 		mc.OnWrite = func(k int, b []byte) memnet.WriteOutcome {
 			time.Sleep(time.Duration(sc.Stall) * time.Millisecond) // the transport is slow to accept the bytes
+			return memnet.WriteOutcome{N: -1}
+		}
+	}
+	if sc.During {
+		// the peer's answer to the at-th CER is read and handled while the transport is still busy with
+		// transmission at+1 (80 ms, longer than anything the handler may wait for)
+		mc.OnWrite = func(k int, b []byte) memnet.WriteOutcome {
+			if k == sc.At+1 {
+				if msgs, _ := splitMsgs(mc.Out()); len(msgs) >= sc.At {
+					lg.add(cnEvent{Ev: "peer", K: peerKind(sc.Kind)})
+					mc.Feed(ceaFor(sc.Kind, &msgs[sc.At-1]))
+				}
+				time.Sleep(80 * time.Millisecond)
+			}
 			return memnet.WriteOutcome{N: -1}
 		}
 	}
@@ -322,7 +352,7 @@ func runHandshake(id int, sc *hsScript, configured bool) hsLine {
 	got := false
 	deadline := time.Now().Add(time.Duration((sc.Budget+3)*sc.Interval)*time.Millisecond + 5*time.Second)
 	for !got && time.Now().Before(deadline) {
-		if !acted && sc.Kind != "silence" {
+		if !acted && sc.Kind != "silence" && !sc.During {
 			if mc.WaitWrites(sc.At, 2*time.Millisecond) {
 				msgs, _ := splitMsgs(mc.Out())
 				if len(msgs) >= sc.At {
